@@ -242,6 +242,16 @@ def run_case(case, ctx):
     for how, a in res.items():
         check_loaded(a, els, coords, bonds, fail, how)
         st.count("loads_checked")
+    # the same document as another writer would serialise it: CRLF line ends, single-quoted attributes
+    from mofun import Atoms
+    for vname, vt in (("CRLF line ends", text.replace("\n", "\r\n")), ("single-quoted attributes", text.replace('"', "'"))):
+        try:
+            check_loaded(Atoms.load(io.StringIO(vt), filetype="cml"), els, coords, bonds, fail, "document with " + vname)
+            st.count("serialisation_variants")
+        except Exception as e:
+            if type(e).__name__ == "PostBroken":
+                raise
+            fail("document with %s raised %s: %s" % (vname, type(e).__name__, str(e)[:120]))
     st.count("documents")
     st.seen("id_scheme", case["ids"])
     st.seen("document_wrapper", case.get("_wrap"))
